@@ -191,6 +191,10 @@ func onlyIteratorLeaks(cs *canaries, text string, bound map[string]bool) bool {
 // the root cause is the known unmarking of iteration elements.
 var c19Recheck func() bool
 
+// c19RecheckKeys, when set, re-runs the case with the keys of every marked map
+// or object replaced by harmless names and reports whether the leak is gone.
+var c19RecheckKeys func() bool
+
 // c19Bound is set by the caller to the iteration variable names of the program.
 var c19Bound map[string]bool
 
@@ -232,6 +236,14 @@ func c19Check(c *core.Case, cs *canaries, d hcl.Diagnostics, src []byte, filenam
 			}
 			if c19Recheck != nil && c19Recheck() {
 				c.Violation("iteration-variable-over-marked-collection", fmt.Sprintf("%s: the %s of diagnostic %q shows a secret taken from an iteration variable bound to a bare element of a marked collection (no leak when the elements carry the mark themselves):\n%s", what, where, sum, trunc(t, 700)), map[string]any{"canary": hit})
+				return false
+			}
+			if c19RecheckKeys != nil && len(c19Bound) > 0 && c19RecheckKeys() {
+				// the secret is a KEY of a wholly marked map or object, bound bare to the
+				// key variable of an iteration (keys cannot carry marks themselves, so
+				// marking the elements does not help); same root cause as above, classed
+				// per diagnostic so that other messages stay separate findings
+				c.Violation("iteration-key-variable-over-marked-map/"+sum, fmt.Sprintf("%s: the %s of diagnostic %q shows a key of a marked map that reached it through the key variable of an iteration (no leak when the map has other keys):\n%s", what, where, sum, trunc(t, 700)), map[string]any{"canary": hit})
 				return false
 			}
 			c.Violation("canary-in-"+where+"/"+sum+"/"+shape(), fmt.Sprintf("%s: a secret that occurs only inside a marked value appears in the %s of diagnostic %q:\n%s", what, where, sum, trunc(t, 700)), map[string]any{"canary": hit})
@@ -309,7 +321,20 @@ func c19Case(c *core.Case) {
 		}
 		return true
 	}
-	defer func() { c19Recheck = nil }()
+	c19RecheckKeys = func() bool {
+		plain := sc.Clone()
+		for _, n := range plain.Names {
+			plain.Vars[n] = renameMarkedKeys(plain.Vars[n])
+		}
+		_, dd := eval(evalCtx(plain))
+		for _, t := range renderDiags(dd, []byte(text), filename) {
+			if cs.scan(t) != "" {
+				return false
+			}
+		}
+		return true
+	}
+	defer func() { c19Recheck, c19RecheckKeys = nil, nil }()
 	ok := c19Check(c, cs, d, []byte(text), filename, "evaluating "+trunc(text, 200), func() string {
 		// shrink: smallest sub-expression whose own diagnostics still leak
 		small := gen.Shrink(ast, func(n *gen.Node) bool {
@@ -497,6 +522,27 @@ func boundNames(n *gen.Node) map[string]bool {
 		}
 	})
 	return out
+}
+
+// renameMarkedKeys replaces the keys of a wholly marked map or object by k0, k1, …
+func renameMarkedKeys(v cty.Value) cty.Value {
+	if !v.IsMarked() {
+		return v
+	}
+	u, marks := v.Unmark()
+	if u.IsNull() || !u.IsKnown() || !(u.Type().IsMapType() || u.Type().IsObjectType()) || u.LengthInt() == 0 {
+		return v
+	}
+	m := map[string]cty.Value{}
+	i := 0
+	for it := u.ElementIterator(); it.Next(); i++ {
+		_, ev := it.Element()
+		m[fmt.Sprintf("k%d", i)] = ev
+	}
+	if u.Type().IsMapType() {
+		return cty.MapVal(m).WithMarks(marks)
+	}
+	return cty.ObjectVal(m).WithMarks(marks)
 }
 
 // markElementsToo gives every element of a marked collection the collection's marks.
